@@ -27,6 +27,7 @@ import (
 	"strconv"
 	"strings"
 	"sync"
+	"syscall"
 	"time"
 )
 
@@ -868,6 +869,51 @@ func c04Limits(o *out, r *rng, thorough bool) {
 			o.count("memsfo")
 			o.notes = append(o.notes, fmt.Sprintf("PARAM.SFO probe: %d-byte sparse file declaring a 4 GiB value, peak RSS %d kB over base %d kB", sfoSize, peak, base))
 			o.emit(fmt.Sprintf("c04 memsfo %d", sfoSize), fmt.Sprintf("proc=%d mem=%s alive=%d", proc, mem, alive), "", "memsfo")
+			// a named pipe below the root: opening it would block for ever (no writer will come); every
+			// command that opens things must refuse it at once and the connection must stay usable
+			fifo := "refused"
+			if err := syscall.Mkfifo(filepath.Join(root, "pipe"), 0o644); err != nil {
+				fifo = "skipped"
+			} else {
+				os.MkdirAll(filepath.Join(root, "PS3ISO"), 0o755)
+				os.WriteFile(filepath.Join(root, "PS3ISO", "k.iso"), make([]byte, 8192), 0o644)
+				syscall.Mkfifo(filepath.Join(root, "PS3ISO", "k.dkey"), 0o644)
+				for _, q := range []creq{{op: opOpenFile, path: "/pipe"}, {op: opOpenDir, path: "/pipe"}, {op: opOpenFile, path: "/PS3ISO/k.iso"}} {
+					func() {
+						c, err := net.DialTimeout("tcp4", srv.addr(), time.Second)
+						if err != nil {
+							fifo = "dial-failed"
+							return
+						}
+						defer c.Close()
+						c.SetDeadline(time.Now().Add(3 * time.Second))
+						c.Write(q.bytes())
+						want := 16
+						if q.op == opOpenDir {
+							want = 4
+						}
+						resp := make([]byte, want)
+						if _, err := io.ReadFull(c, resp); err != nil {
+							fifo = fmt.Sprintf("hang(%04x)", q.op)
+							return
+						}
+						if resp[0] != 0xff {
+							fifo = fmt.Sprintf("opened(%04x)", q.op)
+						}
+						// the connection is still in step
+						c.Write(statRootReq)
+						if _, err := io.ReadFull(c, make([]byte, 33)); err != nil {
+							fifo = fmt.Sprintf("lost(%04x)", q.op)
+						}
+					}()
+				}
+			}
+			proc = 0
+			if srv.alive() {
+				proc = 1
+			}
+			o.count("fifo")
+			o.emit("c04 fifo", fmt.Sprintf("proc=%d fifo=%s", proc, fifo), "", "fifo")
 			srv.stop()
 		}
 		// descriptor exhaustion: more clients than the process may have descriptors
@@ -959,12 +1005,22 @@ func c04Limits(o *out, r *rng, thorough bool) {
 		if thorough {
 			clients, length = 6, uint64(1<<31-1)
 		}
+		// the last two clients ask for more than the 32-bit length field can announce (2^31 and 2^32-1):
+		// they must be served what it can announce, 2^31-1 bytes, not a negative count
+		lengths := make([]uint64, clients)
+		want := make([]int64, clients)
+		for i := range lengths {
+			lengths[i], want[i] = length, int64(length)
+		}
+		lengths[clients-2], want[clients-2] = 1<<31, 1<<31-1
+		lengths[clients-1], want[clients-1] = 1<<32-1, 1<<31-1
 		var wg sync.WaitGroup
 		got := make([]int64, clients)
 		for i := 0; i < clients; i++ {
 			wg.Add(1)
 			go func(i int) {
 				defer wg.Done()
+				length := lengths[i]
 				c, err := net.DialTimeout("tcp4", srv.addr(), time.Second)
 				if err != nil {
 					return
@@ -989,8 +1045,8 @@ func c04Limits(o *out, r *rng, thorough bool) {
 		wg.Wait()
 		peak := srv.peakRSSkB()
 		okAll := true
-		for _, g := range got {
-			if g != int64(length) {
+		for i, g := range got {
+			if g != want[i] {
 				okAll = false
 			}
 		}
@@ -1008,11 +1064,80 @@ func c04Limits(o *out, r *rng, thorough bool) {
 	})
 }
 
+// c04MaxFile: a game directory holding a sparse file of 2^63-1 bytes (tmpfs allows that, ext4 does not).
+// The image generator must refuse the tree - server and make-iso alike - instead of trying to build
+// some two thousand million extent records (size arithmetic near MaxInt64). The real binary runs with a
+// 4 GiB address-space limit so that a wrong answer shows as a dead process, not as a dead sandbox.
+func c04MaxFile(o *out) {
+	base, err := os.MkdirTemp("/dev/shm", "vmax-")
+	if err != nil {
+		o.notes = append(o.notes, "maxfile: no tmpfs, skipped")
+		return
+	}
+	defer os.RemoveAll(base)
+	os.MkdirAll(filepath.Join(base, "g"), 0o755)
+	os.WriteFile(filepath.Join(base, "g", "small.bin"), []byte("x"), 0o644)
+	big := filepath.Join(base, "g", "max.bin")
+	f, err := os.Create(big)
+	if err == nil {
+		err = f.Truncate(1<<63 - 1)
+		f.Close()
+	}
+	if err != nil {
+		o.notes = append(o.notes, "maxfile: this tmpfs refuses a 2^63-1 byte file, skipped")
+		return
+	}
+	res := "refused"
+	srv, err := startServer(base, "ulimit -v 4194304")
+	if err != nil {
+		o.emit("c04 maxfile", "proc=0 note=server-did-not-start", "", "maxfile")
+		return
+	}
+	func() {
+		c, err := net.DialTimeout("tcp4", srv.addr(), time.Second)
+		if err != nil {
+			res = "dial-failed"
+			return
+		}
+		defer c.Close()
+		c.SetDeadline(time.Now().Add(60 * time.Second))
+		c.Write(creq{op: opOpenFile, path: "/***DVD***/g"}.bytes())
+		resp := make([]byte, 16)
+		if _, err := io.ReadFull(c, resp); err != nil {
+			res = "no-answer"
+		} else if resp[0] != 0xff {
+			res = "opened"
+		}
+	}()
+	proc, alive := 0, 0
+	if statRootProbe(srv.addr(), 5*time.Second) {
+		alive = 1
+	}
+	if srv.alive() {
+		proc = 1
+	}
+	srv.stop()
+	// the tool on the same tree
+	outp := filepath.Join(base, "out.iso")
+	cmd := exec.Command("/bin/sh", "-c", "ulimit -v 4194304; exec '"+binPath()+"' make-iso '"+filepath.Join(base, "g")+"' '"+outp+"'")
+	cmd.Env = []string{"TZ=UTC", "HOME=" + base, "PATH=/usr/bin:/bin"}
+	out, _ := cmd.CombinedOutput()
+	tool := "error-exit"
+	if cmd.ProcessState == nil || cmd.ProcessState.ExitCode() == 0 {
+		tool = "exit-0"
+	} else if bytes.Contains(out, []byte("fatal error")) || bytes.Contains(out, []byte("panic:")) || cmd.ProcessState.ExitCode() == 2 {
+		tool = "crash"
+	}
+	o.count("maxfile")
+	o.emit("c04 maxfile", fmt.Sprintf("proc=%d alive=%d open=%s tool=%s", proc, alive, res, tool), "", "maxfile")
+}
+
 func c04Stream(o *out, r *rng, thorough bool) {
 	c04Worlds(o, r, thorough)
 	c04BlackBox(o, r, thorough)
 	c04Tools(o, r, thorough)
 	c04Limits(o, r, thorough)
+	c04MaxFile(o)
 }
 
 func init() {
